@@ -240,6 +240,11 @@ func newTelemetryReport(t *telemetry.Report, cfg *config.Config) (*telemetryRepo
 		for k, v := range p.Counters {
 			counters[k] = uint64(v)
 		}
+		// Stack counters are subject to the upload config, too. (Their names
+		// contain a newline, so they cannot collide with the counters above.)
+		for k, v := range p.Stacks {
+			counters[k] = uint64(v)
+		}
 		prgms = append(prgms, &telemetryProgram{
 			ProgramReport: p,
 			ID:            strings.Join([]string{"reports", t.Week, p.Program, p.Version, p.GOOS, p.GOARCH, p.GoVersion}, ":"),
